@@ -7,7 +7,7 @@ theorem invA_step_5 {w s l s'} (hi : InvA w s) (hs : Step s l s') (hg : grpOf l 
   cases hs with
   | oRdLoad t op rest x h ht hop hr hx => invA_auto
   | oReady t x h =>
-      by_cases hc : x ≠ .list [] ∧ (s.obs t).todo.head? = some .readyTouch
+      by_cases hc : x = .result ∧ (s.obs t).todo.head? = some .readyTouch
       · simp only [doReady, readyNext_pos hc]; invA_auto
       · simp only [doReady, readyNext_neg hc]; invA_auto
   | oTouch t h => invA_auto
